@@ -12,6 +12,20 @@ for pid in sys.argv[2:]:
     anchors = json.dumps(p["anchors"].get("mechanism", []) + [{"name": s["name"], "where": s["where"]} for s in p["anchors"].get("state", [])])
     text = (tmpl.replace("@@TITLE@@", p["title"]).replace("@@STMT@@", p["statement"]).replace("@@QUANT@@", p["quantifier"]["text"])
             .replace("@@ANCHORS@@", anchors).replace("@@DIR@@", d).replace("@@ID@@", pid))
+    import glob
+    known = []
+    for mf in sorted(glob.glob(os.path.join(HERE, "..", "seeded", pid + "-*", "meta.json"))):
+        try:
+            known.append(json.load(open(mf))["summary"])
+        except Exception:
+            pass
+    text += ("\n\nAdditional notes.\n* Besides the two pkg/cmd tests mentioned, TestDefaultCallResolver (pkg/crdb/caller) and TestFatalStacktraceStderr "
+             "(pkg/crdb/log) also fail before any change in this environment; ignore them too.\n* The binary only finds configuration files given as "
+             "relative paths (run it from the directory of the file or pass -I); `-n` parses without running, `-n -p` also prints the parsed configuration "
+             "and the compiled steps; gnuplot is not installed (plot scripts plots/*.gp are still written).\n* The Go race detector works here (`go build -race`).\n")
+    if known:
+        text += ("* Do NOT produce any of these already-known changes (nor a trivial variation of one); find a DIFFERENT realistic slip, in another "
+                 "function or mechanism the property depends on:\n" + "".join("  - %s\n" % k for k in known))
     open("/tmp/%s.full" % d, "w").write(text)
     wt = "/tmp/" + d
     if not os.path.exists(wt):
